@@ -19,7 +19,7 @@ def run(tier):
            ("hostopt", ["bool", "str", "opt", "hostopt", "calls", "evalsafe", "gconst"], 2, 400, 4000, 3)]
     rc = semlib.run_sem_check(
         PID, tier, fam, want_eval=True,
-        extra_cases=[("matrix", semlib.matrix_cases(tier))],
+        extra_cases=[("matrix", semlib.matrix_cases(tier)), ("aggcopy", semlib.aggcopy_cases())],
         rule=("cases = (lowered program, inputs) pairs executed by both the LIR evaluator and the JIT; distinct = distinct "
               "(source, inputs); non-trivial = source longer than one statement; the evidence lists how many evaluator runs "
               "completed with a value (the others panicked, which the property allows)"),
